@@ -4,7 +4,7 @@ import json, os, subprocess
 V = os.path.dirname(os.path.dirname(os.path.abspath(__file__)))
 PY = "PYTHONHASHSEED=0 PYTHONDONTWRITEBYTECODE=1 HGX_VERIF=1 /venv/bin/python -m hgxverif.run"
 
-READY = set(os.environ.get("HGX_READY", "C01 C02 C03 C04 C05 C06 C07 C08 C09 C10 C11 C12 C13 C14 C17 C18 C19 C20").split())
+READY = set(os.environ.get("HGX_READY", " ".join("C%02d" % i for i in range(1, 21))).split())
 
 CHECKS = {
  # id: (technique, level text, design_ref, note)
